@@ -885,3 +885,7 @@ pub trait IdtP<M: ?Sized> {
 impl<X, M: ?Sized> IdtP<M> for X {
     type Same = X;
 }
+
+/// a type with a const parameter only (it implements the nine basic traits for every K)
+#[derive(Clone, Copy, Debug, Default, PartialEq, Eq, PartialOrd, Ord, Hash)]
+pub struct Cn<const K: usize>;
